@@ -235,7 +235,21 @@ def run(ctx):
         same = [norm(a) for a in k.args[1:]] == [norm(a) for a in main.args[1:]] and \
             [(x.arg, norm(x.value)) for x in k.keywords] == [(x.arg, norm(x.value)) for x in main.keywords]
         oke = oke and same
+    # ... and those call arguments are the call's own: `*args, **kwargs` of the per-call wrapper, handed on as they came
+    va6, ka6 = cl.node.args.vararg.arg, cl.node.args.kwarg.arg
+    own_args = True
+    for k in kcalls:
+        st_ = [a.value for a in k.args if isinstance(a, ast.Starred)]
+        dk_ = [x.value for x in k.keywords if x.arg is None]
+        if not (len(st_) == 1 and isinstance(st_[0], ast.Name) and st_[0].id in (va6, 'args') and len(dk_) == 1 and isinstance(dk_[0], ast.Name) and dk_[0].id in (ka6, 'kwargs')):
+            own_args = False
+            oke = False
     ce.instance('%d further key construction(s) use the main key\'s configuration and call arguments' % (len(kcalls) - 1), cl.qualname, oke)
+    if not own_args:
+        res.add(Finding('C06', 'C06.e', 'R-AGREE', cl.file, cl.qualname, kcalls[0].lineno, norm(kcalls[0])[:140],
+                        'the key is built from a rearranged form of the call (`%s`), not from the arguments as the caller passed them: the capture '
+                        'selection (by position / by keyword name) is applied to something else than the documented call shape, so captured arguments '
+                        'silently drop out of the key' % norm(kcalls[0])[:100]))
     # the aliases the keys are built from are those of this call: what the decoration was given (a list of fallback aliases) is shared by
     # every call and must not be written into while the candidates of one call are put together
     from . import common as _cm6
